@@ -13,6 +13,7 @@ git -C $WT apply "$d/patch.diff" || { echo "patch does not apply"; git -C /repo 
 rsync -a --exclude .build/run --exclude .git --exclude replays /verif/ $V/
 sed -i "s#/repo/crates#$WT/crates#" $V/harness/Cargo.toml
 sed -i "s#/verif/.build/cargo#$V/.build/cargo#" $V/harness/.cargo/config.toml
+sed -i "s#/repo/crates#$WT/crates#" $V/kani/Cargo.toml 2>/dev/null
 for id in "$@"; do
   echo "== check $id with $(basename $d) (isolated)"
   (cd $V && VERIF_REPO=$WT ./check $id 2>&1 | grep -E "^(VIOLATION|OK|KNOWN)" | cut -c1-300)
